@@ -149,3 +149,44 @@ PROPS["C17"] = {
     "outside": "session storage and expiry; per-handler checks inside the handlers",
     "explanation": "bounded symbolic evaluation of the real source text (route table, role tables, middleware body) into SMT; queries decided by z3",
 }
+
+
+def _c07(tier, seed):
+    from rs2smt import c07
+    return c07.run(tier, seed)
+
+
+PROPS["C07"] = {
+    "level": "translation_validation",
+    "programs": 3,
+    "files": ["src/raft/filestore/raftdata.rs", "src/raft/store/mod.rs"],
+    "smt": _c07,
+    "trusted_base": ["rs2smt parser + lenient symbolic evaluator (/verif/rs2smt)", "z3 5.1.0 (equality of first-order terms with uninterpreted symbols)"],
+    "assumptions": [
+        "payload fields of a request are uninterpreted; helper calls with identical source text (String::from_utf8_lossy, ConfigValueDO::from_bytes, into) are the same uninterpreted function in all three programs",
+        "Addr::send / Addr::do_send are both 'emit message to that actor'; the difference in mode (awaiting the reply vs. fire-and-forget) is reported, not compared",
+        "what the receiving actors do with equal messages is outside (equal messages to the same single-threaded actor in the same order give equal state)",
+    ],
+    "outside": "ordering between different actors' mailboxes on the follower path; StateApplyManager's last_applied bookkeeping; the actors' own handlers",
+    "explanation": "three dispatch programs compared per request variant as first-order terms",
+}
+
+
+def _c18(tier, seed):
+    from rs2smt import c18
+    return c18.run(tier, seed)
+
+
+PROPS["C18"] = {
+    "level": "other",
+    "files": ["src/common/model/privilege.rs", "src/namespace/mod.rs", "src/config/config_index.rs", "src/naming/service_index.rs"],
+    "smt": _c18,
+    "trusted_base": _S_TRUSTED,
+    "assumptions": [
+        "white/blacklists range over subsets of {'', public, a, b}; the namespace asked about is an arbitrary string",
+        "the per-namespace sub-index of a listing returns keys of its own namespace (its own filters are outside)",
+        "NOT claimed: that every console handler calls the check before acting (a missing call site is not a solver question)",
+    ],
+    "outside": "the ~30 console handlers' call sites; how the privilege group is stored on the user and copied into the session",
+    "explanation": "bounded symbolic evaluation of the privilege algebra and the two index listing functions from the real source into SMT",
+}
